@@ -2190,26 +2190,27 @@ func ruleC15Retry(c *Checker) {
 	if u == nil {
 		return
 	}
-	fn := u.Unpack
-	permT, _ := condEdges(fn, func(v ssa.Value) bool {
-		cl, ok := v.(*ssa.Call)
-		return ok && isFunc(calleeObj(cl), "os", "IsPermission")
-	})
 	n := 0
-	for _, ci := range callsTo(fn, func(o *types.Func) bool { return isFunc(o, "os", "Create") || isFunc(o, "os", "OpenFile") }) {
-		if len(permT) == 0 || !guarded(ci.Block(), permT) {
-			continue
-		}
-		n++
-		chm := false
-		for _, c2 := range callsTo(fn, func(o *types.Func) bool { return isFunc(o, "os", "Chmod") }) {
-			if guarded(c2.Block(), permT) && dominates(c2, ci) && (sameLoc(c2.Common().Args[0], ci.Common().Args[0]) || canon(c2.Common().Args[0]) == canon(ci.Common().Args[0])) {
-				if k, isC := constInt(c2.Common().Args[1]); isC && k&0200 != 0 {
-					chm = true
+	for _, fn := range sortedFuncs(p.family(u.Unpack)) {
+		permT, _ := condEdges(fn, func(v ssa.Value) bool {
+			cl, ok := v.(*ssa.Call)
+			return ok && isFunc(calleeObj(cl), "os", "IsPermission")
+		})
+		for _, ci := range callsTo(fn, func(o *types.Func) bool { return isFunc(o, "os", "Create") || isFunc(o, "os", "OpenFile") }) {
+			if len(permT) == 0 || !guarded(ci.Block(), permT) {
+				continue
+			}
+			n++
+			chm := false
+			for _, c2 := range callsTo(fn, func(o *types.Func) bool { return isFunc(o, "os", "Chmod") }) {
+				if guarded(c2.Block(), permT) && dominates(c2, ci) && (sameLoc(c2.Common().Args[0], ci.Common().Args[0]) || canon(c2.Common().Args[0]) == canon(ci.Common().Args[0])) {
+					if k, isC := constInt(c2.Common().Args[1]); isC && k&0200 != 0 {
+						chm = true
+					}
 				}
 			}
+			c.check(chm, R, p.FuncName(fn), fmt.Sprintf("retry %d after making the path writable", n), p.Pos(ci.Pos()), "os.Chmod(path, owner-writable mode) before the second create", "the create is retried on a permission error without the path having been made writable first: the retry fails the same way, so an entry cannot replace an earlier read-only entry for the same path (the last entry no longer wins)")
 		}
-		c.check(chm, R, p.FuncName(fn), fmt.Sprintf("retry %d after making the path writable", n), p.Pos(ci.Pos()), "os.Chmod(path, owner-writable mode) before the second create", "the create is retried on a permission error without the path having been made writable first: the retry fails the same way, so an entry cannot replace an earlier read-only entry for the same path (the last entry no longer wins)")
 	}
-	c.check(n > 0, R, p.FuncName(fn), "permission retry", p.Pos(fn.Pos()), fmt.Sprintf("%d retry site(s)", n), "Unpack no longer retries the create of a file whose earlier entry was read-only")
+	c.check(n > 0, R, p.FuncName(u.Unpack), "permission retry", p.Pos(u.Unpack.Pos()), fmt.Sprintf("%d retry site(s)", n), "Unpack no longer retries the create of a file whose earlier entry was read-only")
 }
